@@ -51,8 +51,15 @@ def build(tier, seed):
                         native_units=vdriver.all_units_except("mtbl/writer.c"), native_libs=vdriver.MTBL_LIBS, mem_gb=8, stop_ok=True,
                         sample={"buffer_bytes": nbuf, "write_calls": b,
                                 "outcomes": "each call: EINTR | hard errno | 0 | k in [1,remaining]"}))
+    for nbuf, b in ([(4, 9)] if tier == "quick" else [(2, 7), (4, 9), (6, 12)]):
+        qs.append(Query("write_block_n%d_b%d" % (nbuf, b), harness="c20_write_all.c", entry="h_write_block", units=["mtbl/varint.c"],
+                        defines={"NBUF": nbuf, "BCALLS": b}, unwind=nbuf + 2,
+                        unwindset={"_write_all.0": b + 1}, timeout=600,
+                        native_units=vdriver.all_units_except("mtbl/writer.c"), native_libs=vdriver.MTBL_LIBS, mem_gb=8, stop_ok=True,
+                        sample={"data_bytes": "1..%d" % nbuf, "write_calls_total": b,
+                                "outcomes": "each call: EINTR | k in [1,remaining]", "asserts": "returned count == bytes appended == 1+4+len"}))
     meta = {
-        "functions": ["_write_all (mtbl/writer.c, static, via #include)"],
+        "functions": ["_write_all (mtbl/writer.c, static, via #include)", "_mtbl_writer_write_block (mtbl/writer.c, static): reported byte count under fragmentation"],
         "units": ["mtbl/writer.c"],
         "bounds": "buffer <= 16 bytes (all contents, all sizes 1..n), <= 12 write(2) calls per _write_all (so <= 11 consecutive EINTRs); every outcome sequence inside that",
         "outside": "more than BCALLS write calls for one buffer; buffers beyond 12 bytes (the loop body does not depend on the length)",
